@@ -3,7 +3,7 @@
    an output that stays energised) is C10/Frame.v. *)
 From Coq Require Import List ZArith Bool Lia.
 Import ListNotations.
-From V Require Import Base.U32 Base.Iface Gen.RsConsts C09.Model C09.Proofs C10.Model C10.Frame.
+From V Require Import Base.U32 Base.Iface Gen.RsConsts C09.Model C09.Proofs C10.Model C10.Frame C10.Fields.
 Local Open Scope Z_scope.
 
 Notation pos := C10.Model.pos.
@@ -330,12 +330,9 @@ Proof.
   2:{ rewrite (rb_not_due k d t Edue). auto. }
   destruct (rb_report_facts true k d (rb_report k d) eq_refl) as (_ & _ & _ & _ & _ & _ & _ & Fn & _).
   destruct ((TEN_MINUTES_US <? up_time d) || (TEN_MINUTES_US <? down_time d)) eqn:Elong.
-  - rewrite (rb_due_long k d t Edue Elong).
-    remember (rb_report k d) as d1 eqn:E1. clear E1.
-    pose proof (sub_now true _ _ (sub_set_relay true k d1 RELAY_OFF false false)) as Nw.
-    remember (set_relay k d1 RELAY_OFF false false) as d2 eqn:E2. clear E2.
-    cbn [C10.Model.now C10.Model.last_comm upd_times]. split; congruence.
-  - rewrite (rb_due_short k d t Edue Elong). cbn [C10.Model.now C10.Model.last_comm upd_times]. split; congruence.
+  - rewrite (rb_due_long k d t Edue Elong). rewrite now_upd_times, last_comm_upd_times.
+    rewrite (sub_now true _ _ (sub_set_relay true k (rb_report k d) RELAY_OFF false false)). auto.
+  - rewrite (rb_due_short k d t Edue Elong). rewrite now_upd_times, last_comm_upd_times. auto.
 Qed.
 
 Lemma report_block_facts_ext k d t : exists n, outs (report_block k d t) = n ++ outs d.
@@ -344,12 +341,10 @@ Proof.
   2:{ rewrite (rb_not_due k d t Edue). exists []. reflexivity. }
   destruct (rb_report_facts true k d (rb_report k d) eq_refl) as ([n1 [L1 _]] & _).
   destruct ((TEN_MINUTES_US <? up_time d) || (TEN_MINUTES_US <? down_time d)) eqn:Elong.
-  - rewrite (rb_due_long k d t Edue Elong).
-    remember (rb_report k d) as d1 eqn:E1. clear E1.
-    destruct (sub_log true _ _ (sub_set_relay true k d1 RELAY_OFF false false)) as [n L].
-    remember (set_relay k d1 RELAY_OFF false false) as d2 eqn:E2. clear E2.
-    exists (n ++ n1). cbn [outs upd_times]. rewrite L, L1, app_assoc. reflexivity.
-  - rewrite (rb_due_short k d t Edue Elong). exists n1. cbn [outs upd_times]. exact L1.
+  - rewrite (rb_due_long k d t Edue Elong). rewrite outs_upd_times.
+    destruct (sub_log true _ _ (sub_set_relay true k (rb_report k d) RELAY_OFF false false)) as [n L].
+    exists (n ++ n1). rewrite L, L1, app_assoc. reflexivity.
+  - rewrite (rb_due_short k d t Edue Elong). rewrite outs_upd_times. exists n1. exact L1.
 Qed.
 
 End Callback.
@@ -509,25 +504,24 @@ Proof.
   destruct (autocal_enabled k d && negb (detected d || im) && (u32 (counter k d - start_time d) <? POWER_DETECT_US)); [apply u32_self|reflexivity].
 Qed.
 
-(* stage 3 *)
-Lemma cb_account_facts up k d2 im t fo fc el d3 :
-  wfk k -> only up d2 -> NT k up d2 -> 0 <= carry up d2 -> el = u32 (t - last_time d2) -> carry up d2 + el < 4294967296 ->
-  d3 = fst (fst (cb_account o k d2 im t fo fc)) ->
+(* stage 3, with every intermediate state named by an equation *)
+Lemma cb_account_facts_eq up k d2 im el f d2a p d3 :
+  wfk k -> only up d2 -> NT k up d2 -> 0 <= carry up d2 -> 0 <= el -> carry up d2 + el < 4294967296 ->
+  d2a = acc_add d2 up el -> p = autocalibrate k (acc_cm k d2a up im) im ->
+  d3 = move_position_d o k (calibrate_d o k (fst p) f (carry up (fst p)) (end_of up)) f up im ->
   ext d2 d3 /\
   (nofall up (outs d3) -> only up d3 /\ NT k up d3 /\ carry up d3 = carry up d2 + el /\ (start_time d2 <> 0 -> start_time d3 = start_time d2)) /\
   last_comm d3 = last_comm d2 /\ now d3 = now d2.
 Proof.
-  intros W O2 N2 Hc Eel Hsum E3.
-  assert (Hel : 0 <= el) by (subst el; apply u32_range).
-  rewrite (cb_account_only up k d2 im t fo fc O2), <- Eel in E3. unfold acc_post, acc_pre in E3.
-  destruct (acc_add_facts up d2 el (acc_add d2 up el) O2 Hel Hc Hsum eq_refl) as (Ao & AO & Alt & Alc & An & As & Ap & At & Ac).
-  remember (acc_add d2 up el) as d2a eqn:E2a. clear E2a.
+  intros W O2 N2 Hc Hel Hsum E2a Ep E3.
+  destruct (acc_add_facts up d2 el d2a O2 Hel Hc Hsum E2a) as (Ao & AO & Alt & Alc & An & As & Ap & At & Ac).
+  clear E2a.
   assert (N2a : NT k up d2a) by (apply (NT_transfer k up d2 d2a N2); left; auto).
-  pose proof (acc_pre_sub up k d2a im _ eq_refl) as Sp.
-  remember (autocalibrate k (acc_cm k d2a up im) im) as p eqn:Ep. clear Ep.
-  remember (acc_full p up (if up then fo else fc)) as f eqn:Ef. clear Ef.
+  pose proof (acc_pre_sub up k d2a im p Ep) as Sp. clear Ep.
   pose proof (sub_carry up _ _ Sp) as Cp.
   destruct (acc_post_facts up k (fst p) f im d3 W ltac:(lia) E3) as (X3 & P3 & L3l & L3c & L3n).
+  clear E3.
+  pose proof (sub_lc up _ _ Sp) as Lcp. pose proof (sub_now up _ _ Sp) as Nwp.
   split.
   { eapply ext_trans; [|exact X3]. destruct (sub_log up _ _ Sp) as [n L]. exists n. rewrite L, Ao. reflexivity. }
   split.
@@ -537,7 +531,22 @@ Proof.
     destruct (P3 NF3 Op Np) as (O3 & N3 & C3 & St3).
     split; [exact O3|]. split; [exact N3|]. split; [lia|].
     intros S0. rewrite St3, Sfp; congruence.
-  - rewrite L3c, L3n, (sub_lc up _ _ Sp), (sub_now up _ _ Sp). split; congruence.
+  - split; congruence.
+Qed.
+
+Lemma cb_account_facts up k d2 im t fo fc el d3 :
+  wfk k -> only up d2 -> NT k up d2 -> 0 <= carry up d2 -> el = u32 (t - last_time d2) -> carry up d2 + el < 4294967296 ->
+  d3 = fst (fst (cb_account o k d2 im t fo fc)) ->
+  ext d2 d3 /\
+  (nofall up (outs d3) -> only up d3 /\ NT k up d3 /\ carry up d3 = carry up d2 + el /\ (start_time d2 <> 0 -> start_time d3 = start_time d2)) /\
+  last_comm d3 = last_comm d2 /\ now d3 = now d2.
+Proof.
+  intros W O2 N2 Hc Eel Hsum E3.
+  assert (Hel : 0 <= el) by (subst el; apply u32_range).
+  apply (cb_account_facts_eq up k d2 im el
+           (acc_full (autocalibrate k (acc_cm k (acc_add d2 up el) up im) im) up (if up then fo else fc))
+           (acc_add d2 up el) (autocalibrate k (acc_cm k (acc_add d2 up el) up im) im) d3 W O2 N2 Hc Hel Hsum eq_refl eq_refl).
+  rewrite E3, (cb_account_only up k d2 im t fo fc O2), <- Eel. reflexivity.
 Qed.
 
 (* stage 4 *)
@@ -617,7 +626,249 @@ Proof.
   split; [exact O4|]. split; [exact N4|]. split; [lia|]. split; [exact Lt4|]. split; [congruence|].
   split; [rewrite Lc4, Lc3, Lc2; reflexivity|].
   split; [intros [D1 D2]; apply ND; rewrite Lc3, Lc2; split; [exact D1|lia]|].
-  intros S0. rewrite St4, St3; congruence.
+  intros S0.
+  assert (Z3 : start_time d3 = start_time d) by (rewrite St3; congruence).
+  rewrite St4; congruence.
 Qed.
 
 End Callback2.
+
+(* ====================================================================================================
+   Part 2b: runs of timer callbacks — the 10-minute rule bounds the time an output stays energised
+   ==================================================================================================== *)
+Section Run.
+Variable o : fpops.
+Hypothesis OK : fp_ok o.
+
+Lemma calibrate_d_ext k d full time p : ext d (calibrate_d o k d full time p).
+Proof. destruct (calibrate_d_stamps o k d full time p) as (E & _). exists []. rewrite E. reflexivity. Qed.
+
+Lemma acc_add_outs d up el : outs (acc_add d up el) = outs d.
+Proof. unfold acc_add. destruct up; reflexivity. Qed.
+
+Lemma acc_post_ext k p up im f : ext (fst p) (acc_post o k p up im f).
+Proof. unfold acc_post. eapply ext_trans; [apply calibrate_d_ext|apply move_position_d_ext]. Qed.
+
+Lemma acc_pre_ext k d up im el : ext d (fst (acc_pre k d up im el)).
+Proof.
+  pose proof (acc_pre_sub up k (acc_add d up el) im _ eq_refl) as S. unfold acc_pre.
+  destruct (sub_log up _ _ S) as [n L]. exists n. rewrite L, acc_add_outs. reflexivity.
+Qed.
+
+Lemma cb_account_ext k d im t fo fc : ext d (fst (fst (cb_account o k d im t fo fc))).
+Proof.
+  unfold cb_account. destruct (up_on d); [|destruct (down_on d)]; cbn [fst].
+  - eapply ext_trans; [apply acc_pre_ext|apply acc_post_ext].
+  - eapply ext_trans; [apply acc_pre_ext|apply acc_post_ext].
+  - destruct (ac_step d =? 0); exists []; reflexivity.
+Qed.
+
+Lemma timer_cb_ext k d im : ext d (timer_cb o k d im).
+Proof.
+  rewrite timer_cb_eq.
+  eapply ext_trans; [|exact (proj1 (cb_tail_facts true k _ im _ _ _ _ eq_refl))].
+  eapply ext_trans; [|apply cb_account_ext].
+  destruct (cb_head_frame k d (cb_head k d) eq_refl) as (H1 & _).
+  destruct (cb_power_facts k (cb_head k d) im (autocal_enabled k d) (counter k d) _ eq_refl) as (H2 & _).
+  exists []. rewrite H2, H1. reflexivity.
+Qed.
+
+(* the delayed trigger *)
+Lemma sub_fire_if_due up k d target : sub up d (fire_if_due k d target).
+Proof.
+  unfold fire_if_due. destruct (delayed d) as [[[v due] req]|]; [|apply sub_refl].
+  destruct (due <=? target); [|apply sub_refl].
+  unfold fire_delayed. destruct (delayed d) as [[[v' due'] req']|]; [|apply sub_refl].
+  eapply sub_trans; [|apply sub_set_relay].
+  eapply sub_trans; [apply (sub_pause up d (Z.max (clk d) due'))|].
+  eapply sub_trans; [apply sub_disarm|]. unfold disarm. fld.
+  destruct req'; [apply sub_set_button_req|apply sub_refl].
+Qed.
+
+Definition stamped (k : kcfg) (d : dev) : Prop := last_time d = u32 (k_boot k + now d).
+
+Lemma u32_shift x dt lc : u32 (u32 (x + dt) - lc) = u32 (u32 (x - lc) + dt).
+Proof. unfold u32. rewrite Zminus_mod_idemp_l, Zplus_mod_idemp_l. f_equal. lia. Qed.
+
+(* the state at the start of the callback, for an output that stays energised *)
+Lemma cb_entry_facts up k d dt e :
+  only up d -> NT k up d -> e = cb_entry k d dt -> nofall up (outs e) ->
+  only up e /\ NT k up e /\ carry up e = carry up d /\ last_time e = last_time d /\ last_comm e = last_comm d /\
+  now e = now d + dt /\ clk e = now d + dt /\ (start_time d <> 0 -> start_time e = start_time d).
+Proof.
+  intros O N Ee NF. unfold cb_entry, set_clock in Ee.
+  pose proof (sub_fire_if_due up k (begin_event d) (now d + dt)) as Sf.
+  assert (Ob : only up (begin_event d)) by (destruct O as [P Q]; unfold only, powered, begin_event in *; destruct up; cbn [negb] in *; frw; auto).
+  assert (Nb : NT k up (begin_event d)) by (apply (NT_transfer k up d _ N); left; unfold begin_event; frw; auto).
+  assert (Fb : up_time (begin_event d) = up_time d /\ down_time (begin_event d) = down_time d /\ last_time (begin_event d) = last_time d /\
+               last_comm (begin_event d) = last_comm d /\ start_time (begin_event d) = start_time d) by (unfold begin_event; frw; auto).
+  destruct Fb as (B1 & B2 & B3 & B4 & B5).
+  remember (begin_event d) as db eqn:Eb. clear Eb.
+  remember (fire_if_due k db (now d + dt)) as df eqn:Ef. clear Ef.
+  assert (NFf : nofall up (outs df)) by (subst e; rewrite outs_upd_misc in NF; exact NF).
+  destruct (sub_bundle k up db df Sf NFf Ob Nb) as (Of & Nf & Sfs).
+  pose proof (sub_carry up _ _ Sf) as Cf. pose proof (sub_lt up _ _ Sf) as Lf. pose proof (sub_lc up _ _ Sf) as Lcf.
+  subst e.
+  split; [destruct Of as [P Q]; unfold only, powered in *; destruct up; cbn [negb] in *; frw; auto|].
+  split; [apply (NT_transfer k up df _ Nf); left; frw; auto|].
+  split; [unfold carry_of in *; destruct up; frw; congruence|].
+  frw. repeat split; try congruence. intros S0. rewrite Sfs; congruence.
+Qed.
+
+(* one Cb event with the output of direction `up` energised throughout *)
+Theorem step_cb_only up k d dt sm d' el :
+  wfk k -> only up d -> NT k up d -> 0 <= carry up d -> 0 <= dt < 4294967296 -> stamped k d ->
+  d' = step o k d (Cb dt sm) ->
+  nofall up (outs d') ->
+  el = (if frozen_cb k (cb_entry k d dt) (sensor k (cb_entry k d dt) sm) then 0 else dt) ->
+  carry up d + el < 4294967296 ->
+  only up d' /\ NT k up d' /\ carry up d' = carry up d + el /\ stamped k d' /\ now d' = now d + dt /\
+  last_comm d' = (if REPORT_PERIOD_US <=? u32 (u32 (k_boot k + now d + dt) - last_comm d) then u32 (k_boot k + now d + dt) else last_comm d) /\
+  ~ ((REPORT_PERIOD_US <=? u32 (u32 (k_boot k + now d + dt) - last_comm d)) = true /\ TEN_MINUTES_US < carry up d') /\
+  (start_time d <> 0 -> start_time d' = start_time d).
+Proof.
+  intros W O N Hc Hdt St E' NF Eel Hsum.
+  cbn [C10.Model.step] in E'. unfold set_clock in E'.
+  assert (NFt : nofall up (outs (timer_cb o k (cb_entry k d dt) (sensor k (cb_entry k d dt) sm)))) by (subst d'; rewrite outs_upd_misc in NF; exact NF).
+  assert (NFe : nofall up (outs (cb_entry k d dt))) by (exact (ext_nofall up _ _ (timer_cb_ext k _ _) NFt)).
+  destruct (cb_entry_facts up k d dt _ O N eq_refl NFe) as (Oe & Ne & Ce & Le & Lce & Nwe & Cke & Ste).
+  remember (cb_entry k d dt) as e eqn:Ee. clear Ee.
+  remember (sensor k e sm) as im eqn:Eim. clear Eim.
+  assert (Ct : counter k e = u32 (k_boot k + now d + dt)) by (unfold counter; rewrite Cke; f_equal; lia).
+  assert (Eel' : el = (if frozen_cb k e im then 0 else u32 (counter k e - last_time e))).
+  { subst el. destruct (frozen_cb k e im); [reflexivity|]. rewrite Ct, Le, St.
+    pose proof (u32_diff_shift (k_boot k) (now d + dt) (now d)) as X.
+    replace (now d + dt - now d) with dt in X by lia. replace (k_boot k + (now d + dt)) with (k_boot k + now d + dt) in X by lia.
+    symmetry. apply X. lia. }
+  destruct (timer_cb_only o OK up k e im _ el W Oe Ne ltac:(lia) Eel' ltac:(lia) eq_refl NFt) as (O' & N' & C' & Lt' & Nw' & Lc' & ND & St').
+  remember (timer_cb o k e im) as dc eqn:Edc. clear Edc.
+  subst d'.
+  split; [destruct O' as [P Q]; unfold only, powered in *; destruct up; cbn [negb] in *; frw; auto|].
+  split; [apply (NT_transfer k up dc _ N'); left; frw; auto|].
+  split; [unfold carry_of in *; destruct up; frw; lia|].
+  split; [unfold stamped; frw; rewrite Lt', Ct; f_equal; lia|].
+  split; [frw; reflexivity|].
+  split; [frw; rewrite Lc', Ct, Lce; reflexivity|].
+  split.
+  { intros [D1 D2]. apply ND. rewrite Ct, Lce. split; [exact D1|]. unfold carry_of in *. destruct up; frw_in D2; exact D2. }
+  intros S0. frw. rewrite St'; [apply Ste; exact S0|]. rewrite Ste; auto.
+Qed.
+
+(* ---------- the run ---------- *)
+(* a run of timer callbacks (interval, sensor mode) during which the output of direction `up` never falls *)
+Fixpoint on_run (up : bool) (k : kcfg) (d : dev) (evs : list (Z * Z)) : Prop :=
+  match evs with
+  | [] => True
+  | (dt, sm) :: r => nofall up (outs (step o k d (Cb dt sm))) /\ on_run up k (step o k d (Cb dt sm)) r
+  end.
+(* the part of the elapsed time that the run-time counter sees: everything except the callbacks at which the
+   power-consumption detection of an auto-calibrating board holds the clock back *)
+Fixpoint counted (k : kcfg) (d : dev) (evs : list (Z * Z)) : Z :=
+  match evs with
+  | [] => 0
+  | (dt, sm) :: r => (if frozen_cb k (cb_entry k d dt) (sensor k (cb_entry k d dt) sm) then 0 else dt) + counted k (step o k d (Cb dt sm)) r
+  end.
+Definition elapsed (evs : list (Z * Z)) : Z := fold_right (fun e a => fst e + a) 0 evs.
+
+(* age of the last report stamp *)
+Definition age_c (k : kcfg) (d : dev) : Z := u32 (u32 (k_boot k + now d) - last_comm d).
+Definition potential (up : bool) (k : kcfg) (tau : Z) (d : dev) : Z :=
+  if carry up d <=? TEN_MINUTES_US then TEN_MINUTES_US - carry up d + REPORT_PERIOD_US + tau
+  else REPORT_PERIOD_US - age_c k d.
+Definition run_inv (up : bool) (k : kcfg) (tau : Z) (d : dev) : Prop :=
+  only up d /\ NT k up d /\ stamped k d /\ 0 <= carry up d /\
+  (TEN_MINUTES_US < carry up d -> carry up d <= TEN_MINUTES_US + tau + age_c k d) /\ 0 <= age_c k d < 2147483648.
+
+Lemma potential_step up k tau d dt sm :
+  wfk k -> 0 <= tau <= 1000000 -> 0 < dt <= tau -> run_inv up k tau d ->
+  nofall up (outs (step o k d (Cb dt sm))) ->
+  let d1 := step o k d (Cb dt sm) in
+  let el := if frozen_cb k (cb_entry k d dt) (sensor k (cb_entry k d dt) sm) then 0 else dt in
+  run_inv up k tau d1 /\ 0 <= potential up k tau d1 /\ potential up k tau d1 <= potential up k tau d - el.
+Proof.
+  intros W Htau Hdt (O & N & St & Hc & Hbig & Hage) NF. cbv zeta.
+  set (el := if frozen_cb k (cb_entry k d dt) (sensor k (cb_entry k d dt) sm) then 0 else dt).
+  assert (Hel : 0 <= el <= dt) by (unfold el; destruct (frozen_cb _ _ _); lia).
+  assert (TENv : TEN_MINUTES_US = 600000000) by reflexivity.
+  assert (Rv : REPORT_PERIOD_US = 200000) by reflexivity.
+  assert (Hsum : carry up d + el < 4294967296).
+  { destruct (Z_lt_le_dec TEN_MINUTES_US (carry up d)) as [B|B]; [specialize (Hbig B)|]; lia. }
+  destruct (step_cb_only up k d dt sm _ el W O N Hc ltac:(lia) St eq_refl NF eq_refl Hsum) as (O1 & N1 & C1 & St1 & Nw1 & Lc1 & ND & _).
+  remember (step o k d (Cb dt sm)) as d1 eqn:E1. clear E1.
+  (* the age of the report stamp *)
+  set (v := u32 (u32 (k_boot k + now d + dt) - last_comm d)) in *.
+  assert (Hv : v = age_c k d + dt).
+  { assert (Hage' : age_c k d = u32 (k_boot k + now d - last_comm d)) by (unfold age_c; apply u32_sub_l).
+    unfold v. rewrite u32_shift, <- Hage'. apply u32_small. lia. }
+  assert (A1 : age_c k d1 = if REPORT_PERIOD_US <=? v then 0 else v).
+  { unfold age_c. rewrite Nw1, Lc1. replace (k_boot k + (now d + dt)) with (k_boot k + now d + dt) by lia.
+    destruct (REPORT_PERIOD_US <=? v); [apply u32_self|reflexivity]. }
+  assert (J1 : run_inv up k tau d1).
+  { unfold run_inv. split; [exact O1|]. split; [exact N1|]. split; [exact St1|]. split; [lia|]. split.
+    - intros B. rewrite C1 in *.
+      destruct (REPORT_PERIOD_US <=? v) eqn:Ed.
+      + exfalso. apply ND. split; [reflexivity|lia].
+      + rewrite A1, Hv. destruct (Z_lt_le_dec TEN_MINUTES_US (carry up d)) as [B0|B0]; [specialize (Hbig B0)|]; lia.
+    - rewrite A1. destruct (REPORT_PERIOD_US <=? v) eqn:Ed; [lia|]. apply Z.leb_gt in Ed. lia. }
+  split; [exact J1|].
+  unfold potential. rewrite C1.
+  destruct (carry up d <=? TEN_MINUTES_US) eqn:E0; [apply Z.leb_le in E0|apply Z.leb_gt in E0].
+  - destruct (carry up d + el <=? TEN_MINUTES_US) eqn:E2; [apply Z.leb_le in E2; lia|apply Z.leb_gt in E2].
+    rewrite A1. destruct (REPORT_PERIOD_US <=? v) eqn:Ed.
+    + exfalso. apply ND. split; [reflexivity|lia].
+    + apply Z.leb_gt in Ed. lia.
+  - assert (E2 : (carry up d + el <=? TEN_MINUTES_US) = false) by (apply Z.leb_gt; lia). rewrite E2.
+    rewrite A1. destruct (REPORT_PERIOD_US <=? v) eqn:Ed.
+    + exfalso. apply ND. split; [reflexivity|lia].
+    + apply Z.leb_gt in Ed. lia.
+Qed.
+
+Lemma counted_bound up k tau evs : forall d,
+  wfk k -> 0 <= tau <= 1000000 -> Forall (fun e => 0 < fst e <= tau) evs -> run_inv up k tau d -> on_run up k d evs ->
+  counted k d evs <= Z.max 0 (potential up k tau d).
+Proof.
+  induction evs as [|[dt sm] r IH]; intros d W Htau Hev J Hon.
+  - cbn [counted]. lia.
+  - cbn [counted]. inversion Hev as [|? ? Hd Hr]; subst. cbn [fst] in Hd. destruct Hon as [NF Hon].
+    destruct (potential_step up k tau d dt sm W Htau Hd J NF) as (J1 & P0 & P1).
+    specialize (IH _ W Htau Hr J1 Hon). lia.
+Qed.
+
+(* Bounded power, state without accountable travel.  Whatever the sensor reports, whatever the task / auto-calibration
+   state is: as long as the output of direction `up` does not fall, the time counted by the run-time counter stays
+   below ten minutes + one reporting period + one callback interval (minus what the counter already shows). *)
+Theorem C10_bounded_power_counted_thm up k tau d evs :
+  wfk k -> 0 <= tau <= 1000000 -> Forall (fun e => 0 < fst e <= tau) evs ->
+  only up d -> NT k up d -> stamped k d -> 0 <= carry up d <= TEN_MINUTES_US -> 0 <= age_c k d < 2147483648 ->
+  on_run up k d evs ->
+  counted k d evs <= TEN_MINUTES_US - carry up d + REPORT_PERIOD_US + tau.
+Proof.
+  intros W Htau Hev O N St Hc Hage Hon.
+  assert (J : run_inv up k tau d).
+  { unfold run_inv. split; [exact O|]. split; [exact N|]. split; [exact St|]. split; [lia|]. split; [intros; lia|lia]. }
+  pose proof (counted_bound up k tau evs d W Htau Hev J Hon) as B.
+  unfold potential in B. replace (carry up d <=? TEN_MINUTES_US) with true in B by (symmetry; apply Z.leb_le; lia).
+  assert (REPORT_PERIOD_US = 200000) by reflexivity. lia.
+Qed.
+
+(* without the auto-calibration channel flag every callback counts *)
+Lemma counted_noflag k evs : forall d, k_autocal_flag k = false -> counted k d evs = elapsed evs.
+Proof.
+  induction evs as [|[dt sm] r IH]; intros d F; [reflexivity|].
+  cbn [counted elapsed fold_right fst]. unfold frozen_cb, autocal_enabled. rewrite F, andb_false_r. cbn [andb].
+  rewrite (IH _ F). reflexivity.
+Qed.
+
+Theorem C10_bounded_power_thm up k tau d evs :
+  wfk k -> k_autocal_flag k = false -> 0 <= tau <= 1000000 -> Forall (fun e => 0 < fst e <= tau) evs ->
+  only up d -> NT k up d -> stamped k d -> 0 <= carry up d <= TEN_MINUTES_US -> 0 <= age_c k d < 2147483648 ->
+  on_run up k d evs ->
+  elapsed evs <= TEN_MINUTES_US + REPORT_PERIOD_US + tau.
+Proof.
+  intros W F Htau Hev O N St Hc Hage Hon.
+  pose proof (C10_bounded_power_counted_thm up k tau d evs W Htau Hev O N St Hc Hage Hon) as B.
+  rewrite (counted_noflag k evs d F) in B. lia.
+Qed.
+
+End Run.
+
